@@ -11,7 +11,8 @@ so non-leakage into the parent is manifest; what needs proof is that the layered
 a lookup through child and parents equals the lookup in the merged layer (`layers_lookup`, `commitToParent_merge`), for which the
 child must be well-formed (no duplicate keys: built by Upsert) and coherent (its `AssetResourceRecord`s say "absent" only where
 the parents show nothing — the reason `putAssetHolding` copies the sibling params it finds), both of which every group's child
-is (`group_commit`).  Not modelled: the `corruptedState` guard, Go map aliasing / pooled child cows (visible to the tie only).
+is (`group_commit`).  The block-space accounting (`blockTxBytes`, `ErrNoSpace`) is part of the evaluator state (member sizes are inputs).
+Not modelled: the `corruptedState` guard, Go map aliasing / pooled child cows (visible to the tie only).
 -/
 import AlgoVerif.Lemmas.LedgerCoreGroup
 namespace Props.C19
@@ -33,9 +34,22 @@ theorem group_atomic (P : Params) (x : Ctx) (s : EvalState) (g : List Txn) (e : 
   show (match evalGroup P x s g with | .ok s' => evalBlock P x s' gs | .error _ => evalBlock P x s gs) = _
   rw [h]
 
+/-- `failed_group_keeps_space`: a rejected group — in particular one rejected with `ErrNoSpace` — charges nothing to the block:
+the evaluator's `blockTxBytes` is as before, so the next group sees the same remaining space. -/
+theorem failed_group_keeps_space (P : Params) (x : Ctx) (s : EvalState) (g : List Txn) (e : GErr)
+    (h : evalGroup P x s g = .error e) : (tryGroup P x s g).txBytes = s.txBytes := by
+  simp [tryGroup, h]
+
+/-- an accepted group is charged exactly the encoded sizes of its members, and it fitted -/
+theorem accepted_group_space (P : Params) (x : Ctx) (s s' : EvalState) (g : List Txn)
+    (h : evalGroup P x s g = .ok s') : s'.txBytes = s.txBytes + groupBytes g := by
+  cases g with
+  | nil => cases h; simp [groupBytes]
+  | cons t r => obtain ⟨child, _, rfl⟩ := evalGroup_ok (by simp) h; rfl
+
 /-- a failure is detected inside the child: nothing of the group's partial effects exists outside `evalGroupChild` -/
 theorem group_error_in_child (P : Params) (x : Ctx) (s : EvalState) (g : List Txn) (e : GErr)
-    (h : evalGroup P x s g = .error e) : evalGroupChild P x s.top g = .error e := by
+    (h : evalGroup P x s g = .error e) : evalGroupChild P x s.top s.txBytes g = .error e := by
   unfold evalGroup at h
   split at h
   · cases h
@@ -48,8 +62,8 @@ group's child, whose views (accounts, asset params, holdings, creators, counter,
 child at the end of the group. -/
 theorem group_commit (P : Params) (x : Ctx) (s s' : EvalState) (g : List Txn) (hg : g ≠ [])
     (h : evalGroup P x s g = .ok s') :
-    ∃ child, evalGroupChild P x s.top g = .ok child ∧
-      s'.payset = s.payset ++ g ∧ s'.top = commitToParent child s.top ∧
+    ∃ child, evalGroupChild P x s.top s.txBytes g = .ok child ∧
+      s'.payset = s.payset ++ g ∧ s'.txBytes = s.txBytes + groupBytes g ∧ s'.top = commitToParent child s.top ∧
       (∀ a, acctOf x s'.top a = acctOf (childCtx x s.top) child a) ∧
       (∀ k, paramsOf x s'.top k = paramsOf (childCtx x s.top) child k) ∧
       (∀ k, holdingOf x s'.top k = holdingOf (childCtx x s.top) child k) ∧
@@ -59,7 +73,7 @@ theorem group_commit (P : Params) (x : Ctx) (s s' : EvalState) (g : List Txn) (h
   obtain ⟨child, hc, rfl⟩ := evalGroup_ok hg h
   have hw := evalGroupChild_wf hc
   have hco := evalGroupChild_coherent hc
-  exact ⟨child, hc, rfl, rfl, acctOf_commit x child s.top hw, paramsOf_commit x child s.top hw hco,
+  exact ⟨child, hc, rfl, rfl, rfl, acctOf_commit x child s.top hw, paramsOf_commit x child s.top hw hco,
     holdingOf_commit x child s.top hw hco, creatorOf_commit x child s.top hw,
     counter_commit child s.top x.parents x.base, seenTx_commit child s.top x.parents x.base⟩
 
@@ -107,8 +121,8 @@ theorem layers_lookup (b : Base) : ∀ (ps : List Layer) (c : Layer), StackOK b 
 
 /-- the hypotheses of `layers_lookup` hold for what the evaluator builds: the child of every group, at every point of its
 evaluation, is well-formed and coherent with the layers below it -/
-theorem child_stack_ok (P : Params) (x : Ctx) (top child : Layer) (g : List Txn)
-    (h : evalGroupChild P x top g = .ok child) (hx : StackOK x.base (top :: x.parents)) :
+theorem child_stack_ok (P : Params) (x : Ctx) (top child : Layer) (used : Nat) (g : List Txn)
+    (h : evalGroupChild P x top used g = .ok child) (hx : StackOK x.base (top :: x.parents)) :
     StackOK x.base (child :: top :: x.parents) :=
   ⟨evalGroupChild_wf h, evalGroupChild_coherent h, hx⟩
 
@@ -141,18 +155,24 @@ def okWith (r : Except GErr EvalState) (f : EvalState → Bool) : Bool :=
 example : failsWith (evalGroup {} ⟨[], exBase⟩ {} [exPay 1 2 1000000 1, exPay 2 1 9000000 2]) (.overspend, some 1) = true := by decide
 example : okWith (evalGroup {} ⟨[], exBase⟩ {} [exPay 1 2 1000000 1, exPay 2 1 1100000 2])
     (fun s => s.payset.length == 2 && (acctOf ⟨[], exBase⟩ s.top 2).bal == 199000) = true := by decide
+/-- block space: with 250 bytes left the second member (120 + 131 bytes) does not fit — `ErrNoSpace`, nothing charged; with 251
+the group is accepted and charged exactly 251 -/
+example : failsWith (evalGroup { maxBytes := 250 } ⟨[], exBase⟩ {}
+    [{ exPay 1 2 1000000 1 with size := 120 }, { exPay 2 1 1100000 2 with size := 131 }]) (.noSpace, none) = true := by decide
+example : okWith (evalGroup { maxBytes := 251 } ⟨[], exBase⟩ {}
+    [{ exPay 1 2 1000000 1 with size := 120 }, { exPay 2 1 1100000 2 with size := 131 }]) (fun s => s.txBytes == 251) = true := by decide
 example : StackOK exBase [({} : Layer)] := ⟨wf_empty, coherent_empty _, trivial⟩
 
 /-- a non-trivial instance of the hypotheses of `layers_lookup`: the child of a concrete accepted group over the top layer -/
-example : ∃ child, evalGroupChild {} ⟨[], exBase⟩ {} [exPay 1 2 1000000 1, exPay 2 1 1100000 2] = .ok child ∧
+example : ∃ child, evalGroupChild {} ⟨[], exBase⟩ {} 0 [exPay 1 2 1000000 1, exPay 2 1 1100000 2] = .ok child ∧
     StackOK exBase [child, {}] ∧ child.accts.length = 3 := by
-  cases h : evalGroupChild {} ⟨[], exBase⟩ {} [exPay 1 2 1000000 1, exPay 2 1 1100000 2] with
+  cases h : evalGroupChild {} ⟨[], exBase⟩ {} 0 [exPay 1 2 1000000 1, exPay 2 1 1100000 2] with
   | error e =>
-    have : (evalGroupChild {} ⟨[], exBase⟩ {} [exPay 1 2 1000000 1, exPay 2 1 1100000 2]).isOk = true := by decide
+    have : (evalGroupChild {} ⟨[], exBase⟩ {} 0 [exPay 1 2 1000000 1, exPay 2 1 1100000 2]).isOk = true := by decide
     rw [h] at this; cases this
   | ok child =>
-    refine ⟨child, rfl, child_stack_ok {} ⟨[], exBase⟩ {} child _ h ⟨wf_empty, coherent_empty _, trivial⟩, ?_⟩
-    have : (match evalGroupChild {} ⟨[], exBase⟩ {} [exPay 1 2 1000000 1, exPay 2 1 1100000 2] with
+    refine ⟨child, rfl, child_stack_ok {} ⟨[], exBase⟩ {} child 0 _ h ⟨wf_empty, coherent_empty _, trivial⟩, ?_⟩
+    have : (match evalGroupChild {} ⟨[], exBase⟩ {} 0 [exPay 1 2 1000000 1, exPay 2 1 1100000 2] with
       | .ok c => c.accts.length | .error _ => 0) = 3 := by decide
     rw [h] at this; exact this
 
